@@ -126,10 +126,15 @@ class BaseCurve(Intface_BaseCurve):
             vecta, vectb = tuple(self.knotvector), tuple(other.knotvector)
             vectmul = heavy.MathOperations.knotvector_mul(vecta, vectb)
             matrix3d = heavy.MathOperations.mul_spline_curve(vecta, vectb)
-            ctrlpoints = np.tensordot(
-                np.moveaxis(self.ctrlpoints, 0, -1), matrix3d, axes=1
-            )
-            ctrlpoints = ctrlpoints @ other.ctrlpoints
+            matrix2d = [
+                [pt0 * pt1 for pt1 in other.ctrlpoints] for pt0 in self.ctrlpoints
+            ]
+            matrix3d = np.array(matrix3d)
+            matrix2d = np.array(matrix2d)
+            ctrlpoints = [
+                np.tensordot(matrix3d[:, i, :], matrix2d, axes=2)
+                for i in range(matrix3d.shape[1])
+            ]
             curve = Curve(vectmul, ctrlpoints)
             return curve
         numa, dena = self.fraction()
